@@ -171,7 +171,14 @@ def rule_lang_pick(ctx: Ctx, rep: Report) -> None:
     rep.floor(rule, 1)
 
 
+def rule_params_forwarded_(ctx: Ctx, rep: Report) -> None:
+    """C13.params_forwarded: a parameter is handed on to callees that have a parameter of the same name (see sigcommon.rule_params_forwarded)."""
+    from rules.sigcommon import rule_params_forwarded
+    rule_params_forwarded(ctx, rep, "C13.params_forwarded", ('btclib.mnemonic', 'btclib.bip85'), 60)
+
+
 RULES = [
+    ("C13.params_forwarded", rule_params_forwarded_),
     ("C13.bip85_input", rule_bip85_input),
     ("C13.lang_pick", rule_lang_pick),
     ("C13.checksum_gate", rule_checksum_gate),
